@@ -79,6 +79,20 @@ def gen_module(rng: random.Random, proj: Proj, modfull: str, is_init: bool, othe
     local_classes: List[Tuple[str, List[str]]] = []
     ndefs = rng.randint(1, 5)
     used: Set[str] = set(c for _, c in imported)
+    # module-level type variables / aliases (documented on the MODULE's page) used as generic arguments of bases
+    # and in annotations: the links must be relative to the page they are rendered on
+    tvars: List[str] = []
+    if rng.random() < 0.45:
+        lines.append('from typing import Dict, Generic, List, Mapping, Tuple, TypeVar\n')
+        for tv in rng.sample(['T', 'KT', 'Alias', 'Row'], rng.randint(1, 3)):
+            if tv in ('T', 'KT'):
+                lines.append('%s = TypeVar(%r)\n"""Type variable %s."""\n' % (tv, tv, tv))
+            else:
+                lines.append('%s = Tuple[int, str]\n"""Alias %s."""\n' % (tv, tv))
+            tvars.append(tv)
+            used.add(tv)
+            proj.names.append('%s.%s' % (modfull, tv))
+        proj.features.add('typing_names')
     for _ in range(ndefs):
         kind = rng.choice(['class', 'class', 'func', 'var', 'class', 'func'])
         if proj.dups and rng.random() < 0.25:
@@ -103,7 +117,16 @@ def gen_module(rng: random.Random, proj: Proj, modfull: str, is_init: bool, othe
                         for (mm, cc, _ms) in proj.classes:
                             if cc == b:
                                 proj.hot.append('%s.%s' % (mm, cc))
-                lines.append('class %s%s:\n' % (cname, '(%s)' % ', '.join(bases) if bases else ''))
+                hdr = list(bases)
+                if tvars and rng.random() < 0.6:
+                    a = rng.choice(tvars)
+                    b2 = rng.choice(tvars)
+                    hdr.append(rng.choice(['Generic[%s]' % a, 'Dict[str, %s]' % a, 'Mapping[%s, %s]' % (a, b2),
+                                           'List[%s]' % a] + (['%s[%s, int]' % (bases[0], a)] if bases else [])))
+                    if hdr[-1].startswith(bases[0] + '[') if bases else False:
+                        hdr.pop(0)
+                    proj.features.add('subscripted_base')
+                lines.append('class %s%s:\n' % (cname, '(%s)' % ', '.join(hdr) if hdr else ''))
                 lines.append(_doc(rng, proj, '    '))
                 meths: List[str] = []
                 # override some base methods, sometimes without docstring (inherited docstrings)
@@ -132,13 +155,23 @@ def gen_module(rng: random.Random, proj: Proj, modfull: str, is_init: bool, othe
                     lines.append(_doc(rng, proj, '        ', siblings=[x for x in meths if x != mn]))
                 if rng.random() < 0.4:
                     vn = rng.choice(VAR_NAMES)
-                    lines.append('    %s = %d\n' % (vn, rng.randint(0, 9)))
+                    if tvars and rng.random() < 0.5:
+                        lines.append('    %s: %s = %d\n' % (vn, rng.choice(['List[%s]', '%s', 'Dict[str, %s]']) % rng.choice(tvars), rng.randint(0, 9)))
+                        proj.features.add('annotation_same_module_name')
+                    else:
+                        lines.append('    %s = %d\n' % (vn, rng.randint(0, 9)))
                     if rng.random() < 0.5:
                         lines.append('    """Doc of %s."""\n' % vn)
                     meths.append(vn)
                 if rng.random() < 0.25:
                     nn = rng.choice(['Inner', 'Meta', '_Hidden'])
-                    lines.append('    class %s:\n' % nn)
+                    if tvars and rng.random() < 0.5:
+                        lines.append('    NK = TypeVar("NK")\n    """Key type of the nested class."""\n')
+                        lines.append('    class %s(Generic[NK], Dict[str, %s]):\n' % (nn, rng.choice(tvars)))
+                        meths.append('NK')
+                        proj.features.add('nested_generic_outer_var')
+                    else:
+                        lines.append('    class %s:\n' % nn)
                     lines.append(_doc(rng, proj, '        '))
                     if rng.random() < 0.6:
                         lines.append('        def inner_meth(self):\n')
@@ -167,7 +200,12 @@ def gen_module(rng: random.Random, proj: Proj, modfull: str, is_init: bool, othe
                 continue
             used.add(fn)
             for rep in range(2 if kind == 'dupfunc' else 1):
-                lines.append('def %s(a, b=None):\n' % fn)
+                if tvars and rng.random() < 0.5:
+                    tv = rng.choice(tvars)
+                    lines.append('def %s(a: %s, b: "List[%s]" = None) -> %s:\n' % (fn, tv, tv, tv))
+                    proj.features.add('annotation_same_module_name')
+                else:
+                    lines.append('def %s(a, b=None):\n' % fn)
                 lines.append(_doc(rng, proj, '    '))
                 if rep:
                     proj.features.add('duplicate')
@@ -297,7 +335,22 @@ def corpus() -> List[Dict[str, Any]]:
         'pkg/_impl.py': '"""impl"""\ndef dup():\n    "first"\ndef dup():\n    pass\nclass DupC:\n    pass\nclass DupC:\n    "second"\n'
                         '    def m(self): pass\nclass User(DupC):\n    "user"\n',
     }
+    generic_files = {
+        'pkg/__init__.py': '"""Package."""\n',
+        'pkg/containers.py': (
+            '"""Generic containers."""\nfrom typing import Dict, Generic, Tuple, TypeVar\nT = TypeVar("T")\n"""Item type."""\n'
+            'Row = Tuple[int, str]\n"""A row."""\ndef conv(x: T, rows: "Dict[str, Row]" = None) -> Row:\n    """Convert."""\n'
+            'class Box(Generic[T]):\n    """A box of T."""\n    item: T = None\n    """The item."""\n'
+            '    def get(self, default: Row = None) -> T:\n        """Return the item."""\n'
+            'class Table(Dict[str, Row]):\n    """Rows by name."""\nclass Sub(Box[T], Table):\n    """Both."""\n'
+            'class Outer:\n    """Outer."""\n    K = TypeVar("K")\n    """Key type."""\n'
+            '    class Inner(Generic[K], Dict[str, Row]):\n        """Inner, generic in Outer.K."""\n'
+            '        val: K = None\n        """v"""\n'),
+    }
     out = [
+        {'id': 'corpus-generic-bases', 'files': generic_files, 'roots': ['pkg'], 'args': []},
+        {'id': 'corpus-generic-bases-hidden-var', 'files': generic_files, 'roots': ['pkg'],
+         'args': ['--privacy=HIDDEN:pkg.containers.T', '--privacy=PRIVATE:pkg.containers.Row', '--theme=readthedocs']},
         {'id': 'corpus-hidden-base', 'files': hid_files, 'roots': ['pkg'],
          'args': ['--privacy=HIDDEN:pkg.hid', '--privacy=HIDDEN:pkg.mod.Sub.hidden_member']},
         {'id': 'corpus-hidden-base-rtd', 'files': hid_files, 'roots': ['pkg'],
